@@ -367,6 +367,35 @@ def run(rep, facts, tier):
             rep.add('C02.R1', 'C02.R1:%s' % fn, True, 'run-time writer of %s; its writes are checked by R2' %
                     sorted({field_id(w) for w in ws}), fn, f.j['span'], nontrivial=False)
     rep.floor('C02 machine-state writes at run time', n_writes, 16)
+    # ... and outside run time.  What the drivers do to the machine BETWEEN steps is part of the history rnext has to walk back
+    # through: halting a failed program (ip := end of code, loop records / frames / marks dropped) is a change like any other and
+    # has to go through the logged primitives.  Exempt: the undo arms themselves; the rollback of a rejected source, provided the
+    # log is cut back on the same paths (its entries go with the code they refer to); a freshly allocated heap cell.
+    n_out = 0
+    for fn, ws in sorted(W.items()):
+        if fn in reach or fn == rc.name or fn not in fx.fns:
+            continue
+        f = fx.fns[fn]
+        cuts = {w['bb'] for w in ws if w['field'][0] == 'reverse_log' and w['how'].startswith('call:shrink:truncate')}
+        if cuts:
+            # the log is an Option: the place where it is opened for writing stands for the cut (nothing to cut when recording is off)
+            cuts |= {ev['bb'] for ev in awrite.field_events(fx, f, {'state::State': {'reverse_log'}}) if ev['mut']}
+        bad = []
+        for w in ws:
+            if not is_machine(w):
+                continue
+            n_out += 1
+            if w['field'][0] == 'heap' and w['how'].startswith('call:grow'):
+                continue
+            if any(c == w['bb'] or f.dominates(c, w['bb']) or f.dominates(w['bb'], c) for c in cuts):
+                continue
+            bad.append('%s %s' % (field_id(w), w['how']))
+        if bad or any(is_machine(w) for w in ws):
+            rep.add('C02.R1', 'C02.R1:between-runs:%s' % fn, not bad,
+                    'changes machine state only while rolling a rejected source back, log included' if not bad else
+                    '%s changes machine state outside a logged step (%s): with recording on, rnext after it restores a state that never '
+                    'existed (`: f 1 0 / ; 7 f` fails, `5`, one rnext leaves 7 1 0)' % (short(fn), ', '.join(sorted(set(bad)))[:160]), fn, f.j['span'])
+    rep.floor('C02 machine-state writes outside run time', n_out, 5)
 
     # R3: arms
     for name in sorted(arms):
@@ -476,6 +505,11 @@ def check_log_retention(rep, fx, W):
                     '.ctx.' in ' '.join(expr_str(fx.fns[fn].expr_of_operand(a), -12) for a in w['term']['args'][1:]):
                 rep.add('C02.R3', key, True, 'entries logged by a build-time (meta) evaluation are dropped with the code they refer to', fn, w['at'],
                         nontrivial=False)
+            elif how.startswith('call:shrink:truncate') and any(isinstance(x, tuple) and x[0] == 'arg' and x[1] >= 2 for a_ in w['term']['args'][1:]
+                                                                for x in expr_walk(fx.fns[fn].expr_of_operand(a_))) \
+                    and any(w2['field'][0] == 'code' and w2['how'].startswith('call:shrink') for w2 in W.get(fn, [])):
+                rep.add('C02.R3', key, True, 'the rollback of a rejected source cuts the log back to the mark taken at its entry, together with the code '
+                        'the entries refer to', fn, w['at'], nontrivial=False)
             elif fn == 'state::State::set_recording_enabled' and how.startswith('assign'):
                 rep.add('C02.R3', key, True, 'recording switched on (empty log) / off (log dropped) as a whole', fn, w['at'], nontrivial=False)
             else:
